@@ -2,6 +2,7 @@ import Std.Data.HashMap
 import Driver.Util
 import Driver.Wire
 import Driver.Conn
+import Driver.C13
 open Driver
 
 def dispatch (line : String) : Verdict :=
@@ -10,6 +11,7 @@ def dispatch (line : String) : Verdict :=
   match l with
   | "C06" :: args => c06 args r
   | "C07" :: args => c07 args r
+  | "C13" :: args => c13 args r
   | _ => vBad line
 
 partial def loop (h : IO.FS.Stream) (out : IO.FS.Stream) (cov : Std.HashMap String Nat) : IO (Std.HashMap String Nat) := do
